@@ -44,6 +44,7 @@ fn t(signals: Vec<SigSpec>, header: &[&str], stmts: Vec<Stmt>, layout: Vec<(&str
             layout,
             seed: 7,
             overrides_write: true,
+            in_place: false,
             faults: vec![],
         },
         draws: vec![],
